@@ -4,7 +4,7 @@ import "fmt"
 
 // model is the reference for one receiver mailbox / channel fed by 1..n senders.
 //
-// A message is an int  (sender+1)*100 + serial.  The model records what each sender's sections wrote,
+// A message is an int  (sender+1)*10000 + serial.  The model records what each sender's sections wrote,
 // which sections committed, and in which order the receiver obtained messages; every answer of the
 // implementation is compared with it on the spot.
 type model struct {
@@ -43,12 +43,14 @@ func newModel(eager []bool, batch bool) *model {
 		next: make([]int, n), state: map[int]int{}, batchOf: map[int][2]int{}, batchLen: map[int]int{}}
 }
 
-func senderOf(m int) int { return m/100 - 1 }
+func senderOf(m int) int { return m/10000 - 1 }
+
+func serialOf(m int) int { return m % 10000 }
 
 // newMsg allocates the next message of sender s (before the write is attempted).
 func (m *model) newMsg(s int) int {
 	m.serial[s]++
-	return (s+1)*100 + m.serial[s]
+	return (s+1)*10000 + m.serial[s]
 }
 
 // wrote: the write of v by sender s succeeded.
